@@ -1594,6 +1594,21 @@ impl World {
                 }
             }
         }
+        // which keys of a child that is not hosted here its parent's record
+        // of it lists as in use
+        let mut inuse = Map::new();
+        for (name, f) in &self.foreign {
+            let used = &full.get(&f.parent).map(|p| {
+                p["children"][name]["used_keys"].clone()
+            }).unwrap_or_default();
+            let roles: Vec<String> = f.keys.iter().filter(|(_, ki)| {
+                used.as_object().map(|m| m.iter().any(|(k, v)| {
+                    k.eq_ignore_ascii_case(&ki.to_string())
+                        && v.get("in_use").is_some()
+                })).unwrap_or(false)
+            }).map(|(role, _)| role.clone()).collect();
+            inuse.insert(name.clone(), json!(roles));
+        }
         let mut pubs = self.project_pub(&full);
         for name in self.foreign.keys() {
             // (their publication points are somewhere else)
@@ -1783,6 +1798,7 @@ impl World {
         }
         json!({
             "taq": taq, "tar": tar, "taiss": taiss, "tapub": tapub,
+            "inuse": inuse,
             "pst": pst, "rst": rst, "kst": kst, "pubknown": pubknown,
             "exists": exists, "parent": parent, "hasp": hasp,
             "ent": ent, "cstate": cstate,
